@@ -3,7 +3,7 @@
 From Verif Require Import Base.Tactics Base.ZList Base.Val.
 From Verif Require Import Base.Str.
 From Verif Require Import Model.BufReaderModel Model.RangeModel Model.IsoTimeModel Model.TimingModel Model.SegModel.
-From Verif Require Import Base.Bits Model.CrcModel Model.EventsModel Model.Scte35Model Model.MpsModel Model.AuthModel Model.OptionsModel Model.BoxModel Model.FragModel Model.DrmModel Model.ErrModel Model.OptErrModel Model.XmlModel.
+From Verif Require Import Base.Bits Model.CrcModel Model.EventsModel Model.Scte35Model Model.MpsModel Model.AuthModel Model.OptionsModel Model.BoxModel Model.FragModel Model.DrmModel Model.ErrModel Model.OptErrModel Model.XmlModel Model.StoreModel.
 
 (* ---- C20 ---- request: (file off bs maxb (size?) mode ops) *)
 Definition c20_op (v : val) : op :=
@@ -372,8 +372,35 @@ Definition c05_run (v : val) : val :=
     vbool (ctx_safe c (vints (vnth 3 v)))
   else verr 992.
 
+(* ---- C17 ---- request: (ops) with op = (code a b c d); result: the eight tables + invb, after every op
+   when mode = 1, at the end when mode = 0 *)
+Definition c17_op (v : val) : StoreModel.sop :=
+  let c := vint (vnth 0 v) in
+  let a := vint (vnth 1 v) in let b := vint (vnth 2 v) in let d := vint (vnth 3 v) in let e := vint (vnth 4 v) in
+  if c =? 0 then OAddStream a b else if c =? 1 then ODelStream a else if c =? 2 then OUpload a b d e
+  else if c =? 3 then ODelFile a else if c =? 4 then OAddKey a b else if c =? 5 then ODelKey a
+  else if c =? 6 then OLink a b else if c =? 7 then OAddMps a b else if c =? 8 then ODelMps a
+  else if c =? 9 then OAddPeriod a b d e else if c =? 10 then ODelPeriod a else OAddAset a b.
+Definition c17_pairs (l : list (Z * Z)) : val := VL (map (fun x => VL [VI (fst x); VI (snd x)]) l).
+Definition c17_state (s : store) : val :=
+  VL [c17_pairs (streams s);
+      VL (map (fun f => VL [VI (f_pk f); VI (f_name f); VI (f_stream f); VI (f_blob f)]) (files s));
+      c17_pairs (blobs s); c17_pairs (keys s); c17_pairs (links s); c17_pairs (mpss s);
+      VL (map (fun p => VL [VI (p_pk p); VI (p_mps p); VI (p_pid p); VI (p_stream p)]) (periods s));
+      c17_pairs (asets s); vbool (invb s)].
+Fixpoint c17_trace (s : store) (ops : list val) : list val :=
+  match ops with
+  | [] => []
+  | o :: r => let s' := StoreModel.sstep s (c17_op o) in c17_state s' :: c17_trace s' r
+  end.
+Definition c17_run (v : val) : val :=
+  let ops := vlist (vnth 1 v) in
+  if vint (vnth 0 v) =? 1 then VL (c17_trace StoreModel.sempty ops)
+  else c17_state (fold_left (fun s o => StoreModel.sstep s (c17_op o)) ops StoreModel.sempty).
+
 Definition dispatch (comp : Z) (v : val) : val :=
   if comp =? 20 then c20_run v
+  else if comp =? 17 then c17_run v
   else if comp =? 5 then c05_run v
   else if comp =? 16 then c16_run v
   else if comp =? 11 then c11_run v
